@@ -211,7 +211,7 @@ def judge(spec):
     return out, n_items
 
 
-def judge_cli(spec):
+def judge_cli(spec, stages=False):
     """the `nuspacesim run` command: the file it writes must hold, bit for bit, the table compute() produced"""
     import dask
     from astropy.table import Table
@@ -244,7 +244,7 @@ def judge_cli(spec):
             warnings.simplefilter("ignore")
             with own.frozen_clock(), own.null_progress(), dask.config.set(scheduler="synchronous"):
                 np.random.seed(5)
-                res = CliRunner().invoke(R.run, [toml, "-o", fn])
+                res = CliRunner().invoke(R.run, [toml, "-o", fn] + (["-w"] if stages else []))
         if res.exit_code != 0 or "t" not in cap:
             return [("cli_run_completes", "exit 0", f"exit {res.exit_code}: {str(res.exception)[:120]}")], 1
         if not os.path.exists(fn):
@@ -263,6 +263,16 @@ def judge_cli(spec):
                 a, b = col_bytes(t[name]), col_bytes(r[name], time_like=isinstance(t[name], _T))
                 if a != b:
                     out.append(("cli_column_bitwise", f"{name} {a[1]} {a[2]}", f"{b[1]} {b[2]} differs"))
+        ma, mb = norm_meta(t.meta), norm_meta(r.meta)
+        for k, v in ma.items():
+            n_items += 1
+            if k not in mb:
+                out.append(("cli_header_key_present", k, "missing in the file"))
+            elif isinstance(v, (float, np.floating)) and not isinstance(v, bool):
+                if not (float(mb[k]) == float(card_value(float(v))) or (math.isnan(float(v)) and (isinstance(mb[k], str) or math.isnan(float(mb[k]))))):
+                    out.append(("cli_header_value", f"{k}={v!r}", repr(mb[k])))
+            elif not (mb[k] == v):
+                out.append(("cli_header_value", f"{k}={v!r}", repr(mb[k])))
     finally:
         R.compute = real
         shutil.rmtree(tmp, ignore_errors=True)
@@ -295,13 +305,14 @@ def run(ctx):
         if i in (0, len(cs) - 2):
             ctx.sample({k: spec[k] for k in ("mode", "spectrum", "cloud", "optical", "radio", "tag")})
     for spec in [dict(mode="Diffuse", spectrum="mono", cloud="none", optical=True, radio=True, n=60, tag="cli"), dict(mode="Target", spectrum="power", cloud="mono", optical=True, radio=True, n=150, tag="cli")]:
-        v, n = judge_cli(spec)
-        ctx.tick(max(n, 1), ("cli", spec["mode"]))
-        for c, e, o in v:
-            ctx.violation(c, {"spec": spec, "item": str(e)[:80], "cli": True}, e, o)
+        for stages in (False, True):
+            v, n = judge_cli(spec, stages)
+            ctx.tick(max(n, 1), ("cli", spec["mode"], stages))
+            for c, e, o in v:
+                ctx.violation(c, {"spec": spec, "item": str(e)[:80], "cli": True, "stages": stages}, e, o)
 
 
 def replay(case):
-    v, _ = judge_cli(case["spec"]) if case.get("cli") else judge(case["spec"])
+    v, _ = judge_cli(case["spec"], case.get("stages", False)) if case.get("cli") else judge(case["spec"])
     item = case.get("item")
     return [(c, e, o) for c, e, o in v if item is None or str(e)[:80] == item]
